@@ -313,9 +313,10 @@ def grid_requests(rng, tier, client=1):
                         for body in bodies:
                             reqs.append(f"http {m} {route} {seg} {cid} {ct} {body}")
     rng.shuffle(reqs)
-    if not full:
-        # pairwise-style slice: a random sample plus every value of every dimension with valid others
-        keep = reqs[:1500]
+    if True:
+        # pairwise-style slice: a random sample of the full product (1 500 requests in the quick tier, 60 000 in the
+        # thorough one) plus every value of every dimension with valid others
+        keep = reqs[:(60000 if full else 1500)]
         for route in routes:
             for m in methods:
                 seg = f"hyph=latest:{client}" if route in ("av", "gcv", "as", "unknown2", "avq", "gcvq", "asq", "avp", "gcvp", "asp") else "-"
